@@ -36,6 +36,9 @@ mod lab {
         fn multi_role_action(e: &Env, caller: Address) -> String;
         fn multi_role_auth_action(e: &Env, caller: Address) -> String;
         fn burn(e: &Env, from: Address, token_id: u32);
+        fn stack_any_admin(e: &Env, caller: Address) -> String;
+        fn stack_role_admin(e: &Env, caller: Address) -> String;
+        fn stack_admin_any(e: &Env, caller: Address) -> String;
     }
 
     #[contractimpl]
@@ -73,6 +76,25 @@ mod lab {
         fn burn(e: &Env, from: Address, token_id: u32) {
             let _ = token_id;
             from.require_auth();
+        }
+
+        // two guards on one entry point (no example stacks them): both must hold, whatever their order
+        #[only_any_role(caller, ["minter", "burner"])]
+        #[only_admin]
+        fn stack_any_admin(e: &Env, caller: Address) -> String {
+            String::from_str(e, "ok")
+        }
+
+        #[only_role(caller, "minter")]
+        #[only_admin]
+        fn stack_role_admin(e: &Env, caller: Address) -> String {
+            String::from_str(e, "ok")
+        }
+
+        #[only_admin]
+        #[only_any_role(caller, ["minter", "burner"])]
+        fn stack_admin_any(e: &Env, caller: Address) -> String {
+            String::from_str(e, "ok")
         }
     }
 
@@ -348,6 +370,17 @@ impl Sys {
                 set_auth_same(e, &who, &Inv::new(&self.c, "multi_role_action", args(e, (caller.clone(),))));
                 res_of(&cl.try_multi_role_action(&caller))
             }
+            "stack_any_admin" | "stack_role_admin" | "stack_admin_any" => {
+                // only the lab contract has these entry points
+                let caller = addr("caller");
+                set_auth_same(e, &who, &Inv::new(&self.c, kind, args(e, (caller.clone(),))));
+                if self.imp == "lab" {
+                    let r = e.try_invoke_contract::<soroban_sdk::Val, soroban_sdk::Error>(&self.c, &Symbol::new(e, kind), args(e, (caller.clone(),)));
+                    res_of(&r)
+                } else {
+                    ("fail", -9)
+                }
+            }
             "multi_role_auth_action" => {
                 let caller = addr("caller");
                 set_auth_same(e, &who, &Inv::new(&self.c, "multi_role_auth_action", args(e, (caller.clone(),))));
@@ -509,6 +542,7 @@ fn main() {
                             "grant", "grant", "grant", "grant", "grant", "grant", "revoke", "revoke", "revoke", "revoke",
                             "renounce_role", "renounce_role", "set_role_admin", "set_role_admin", "transfer", "accept",
                             "renounce_admin", "admin_fn", "mint", "mint", "multi_role_action", "multi_role_auth_action",
+                            "stack_any_admin", "stack_role_admin", "stack_admin_any",
                             "burn", "burn",
                         ],
                     );
@@ -561,7 +595,13 @@ fn main() {
                                 pref.extend(v.holders[role].iter().cloned());
                             }
                             let caller = pick_or(&mut r, &pref, 0.65, accts);
-                            mk(k, "none", "none", "none", &caller, &gen_auth(&mut r, &caller, &admin, accts))
+                            let mut au = gen_auth(&mut r, &caller, &admin, accts);
+                            if k.starts_with("stack_") && r.gen_bool(0.5) && admin != "none" && !au.contains(&admin) {
+                                // the second guard's principal signs as well (half of the time)
+                                au.push(admin.clone());
+                                au.sort();
+                            }
+                            mk(k, "none", "none", "none", &caller, &au)
                         }
                     };
                     // the contract's own address never signs (it has no __check_auth): a call in its name goes unauthorized
